@@ -149,6 +149,10 @@ impl CommitOracle {
 		// (see `CommitPipeline::commit`), and both `active_txn_tracker.oldest`
 		// and `visible_seq_num` are monotonic. The debug-only assert below
 		// catches caller-side regressions.
+		#[cfg(surrealkv_verif)]
+		if g.commits_since_gc >= crate::verif::gc_interval(GC_INTERVAL) {
+			g.commits_since_gc = g.commits_since_gc.max(GC_INTERVAL);
+		}
 		if g.commits_since_gc >= GC_INTERVAL && oldest_active > g.kept_since {
 			#[cfg(debug_assertions)]
 			{
